@@ -43,6 +43,10 @@ type Task struct {
 	Stack   string
 	Dead    bool // host crashed; task will be poisoned when resumed
 	OnDone  func(*Task)
+	// Unwind is set (by ParkHook) when the task parks while holding something
+	// process wide that other hosts need: such a task is unwound when its host
+	// dies, all others are simply left parked for ever.
+	Unwind bool
 }
 
 // State returns the scheduler's view of the task.
@@ -77,6 +81,9 @@ type Exec struct {
 	// parks (it is called on the task's goroutine while the scheduler waits,
 	// so it may draw from the choice source).
 	YieldFilter func(t *Task, point string, arg uint64) bool
+	// ParkHook is called on the task's goroutine right before it parks.
+	ParkHook func(t *Task)
+	zombies  int // tasks of dead hosts left parked or blocked for ever
 }
 
 // New creates an executor; the calling goroutine is the scheduler.
@@ -174,6 +181,9 @@ func (e *Exec) Yield(point string, arg uint64) {
 	if e.YieldFilter != nil && !e.YieldFilter(t, point, arg) {
 		return
 	}
+	if e.ParkHook != nil {
+		e.ParkHook(t)
+	}
 	e.sig <- sigMsg{t: t, st: Parked, point: point, arg: arg}
 	if poison := <-t.resume; poison {
 		panic(Poisoned{})
@@ -198,11 +208,16 @@ func (e *Exec) noteSignal(m sigMsg) {
 	t.PointA = m.arg
 	t.Blocked = false
 	if t.state == Done {
+		found := false
 		for i, x := range e.live {
 			if x == t {
 				e.live = append(e.live[:i], e.live[i+1:]...)
+				found = true
 				break
 			}
+		}
+		if !found && t.Dead && e.zombies > 0 {
+			e.zombies-- // a zombie got unblocked and ran to its end
 		}
 		if t.OnDone != nil {
 			t.OnDone(t)
@@ -227,7 +242,7 @@ func (e *Exec) settle() {
 	for {
 		e.drain()
 		running := e.anyRunning()
-		if !running && !e.AlwaysInspect && runtime.NumGoroutine() <= 1+e.Base+len(e.live) {
+		if !running && !e.AlwaysInspect && runtime.NumGoroutine() <= 1+e.Base+e.zombies+len(e.live) {
 			return
 		}
 		if running {
@@ -349,25 +364,39 @@ func (e *Exec) quiescent() bool {
 	return quiet
 }
 
-// KillHost marks every live task of host as dead. Parked ones are resumed
-// with poison so that they unwind; blocked ones are poisoned at their next
-// yield point.
+// KillHost marks every live task of host as dead. Dead tasks are not unwound
+// (unwinding would run the deferred calls of the code under test in states it
+// never sees in production): parked and blocked ones are left as they are, for
+// ever, and no longer counted as live. The exception are tasks that parked
+// holding something process wide (Task.Unwind): they are resumed with poison
+// so that their deferred unlocks run.
 func (e *Exec) KillHost(host int) {
-	var parked []*Task
+	var unwind []*Task
+	keep := e.live[:0]
 	for _, t := range e.live {
-		if t.Host == host {
-			t.Dead = true
-			if t.state == Parked {
-				parked = append(parked, t)
-			}
+		if t.Host != host {
+			keep = append(keep, t)
+			continue
 		}
+		t.Dead = true
+		if t.state == Parked && t.Unwind {
+			unwind = append(unwind, t)
+			keep = append(keep, t)
+			continue
+		}
+		// parked or blocked: becomes a zombie goroutine
+		e.zombies++
 	}
-	for _, t := range parked {
+	e.live = keep
+	for _, t := range unwind {
 		if t.state == Parked {
 			e.Resume(t)
 		}
 	}
 }
+
+// Zombies returns the number of goroutines left behind by dead hosts.
+func (e *Exec) Zombies() int { return e.zombies }
 
 // Describe lists live tasks (for traces).
 func (e *Exec) Describe() string {
